@@ -34,6 +34,9 @@ def offset_slice_indices_lsb0(key: slice, length: int) -> slice:
         if new_stop < 0:
             new_stop = None
     else:
+        if stop <= start:
+            # Nothing is selected. An assignment to an empty slice inserts at start, so mirror that position.
+            return slice(length - start, length - start, key.step)
         first_element = start
         # The last element will usually be stop - 1, but needs to be adjusted if step != 1.
         last_element = start + ((stop - 1 - start) // step) * step
